@@ -597,8 +597,12 @@ def do_codegen(codegen, *mvs) -> CodegenOutput:
         dependencies = None
 
     # Sort the keys in canonical order
-    res = {bin: res[bin] if isinstance(res, dict) else getattr(res, canon)
-           for canon, bin in algebra.canon2bin.items() if bin in res.keys()}
+    keys_res = res.keys()
+    if algebra.graded and keys_res:
+        # In graded mode results store complete grades, also when a coefficient vanishes identically.
+        keys_res = algebra.indices_for_grades[tuple(sorted({format(k, 'b').count('1') for k in keys_res}))]
+    res = {bin: res.get(bin, 0) if isinstance(res, dict) else getattr(res, canon)
+           for canon, bin in algebra.canon2bin.items() if bin in keys_res}
 
     if not algebra.cse and any(isinstance(v, str) for v in res.values()):
         return func_builder(res, *mvs, funcname=funcname)
